@@ -961,6 +961,47 @@ def deep_key_lines():
     return "\n".join(out) + "\n", exp
 
 
+def fresh_enumeration_lines():
+    """What keys() / values() / items() hand out belongs to the caller: whatever the program does to one enumeration (pop, push, element
+    assignment, emptying it) changes neither the map nor any other enumeration, earlier or later."""
+    out = ["fn total(v) { var t = 0; for x in v { t = t + x; } return t; }",
+           "fn totalp(v) { var t = 0; for p in v { t = t + p[0] * 100 + p[1]; } return t; }",
+           "var fm = {1: 10, 2: 20, 3: 30};"]
+    exp = []
+    for meth, tot, full in (("keys", "total", "6"), ("values", "total", "60"), ("items", "totalp", "660")):
+        extra = "(9, 9)" if meth == "items" else "9"
+        out.append("{ var a = fm.%s(); var b = fm.%s(); while a.len() > 0 { a.pop(); } print(b.len()); print(%s(fm.%s())); print(fm.len()); }" % (meth, meth, tot, meth))
+        exp += ["3", full, "3"]
+        out.append("{ var a = fm.%s(); a.push(%s); a.push(%s); print(fm.%s().len()); print(%s(fm.%s())); print(fm.has_key(9)); }" % (meth, extra, extra, meth, tot, meth))
+        exp += ["3", full, "false"]
+        out.append("{ var a = fm.%s(); a[0] = %s; a[1] = %s; a[2] = %s; print(%s(fm.%s())); var c = fm.%s(); print(%s(c)); c.pop(); print(%s(fm.%s())); }" % (meth, extra, extra, extra, tot, meth, meth, tot, tot, meth))
+        exp += [full, full, full]
+        out.append("{ var a = fm.%s(); fm.insert(4, 40); print(a.len()); print(fm.%s().len()); fm.remove(4); print(a.len()); print(%s(fm.%s())); }" % (meth, meth, tot, meth))
+        exp += ["3", "4", "3", full]
+    return "\n".join(out) + "\n", exp
+
+
+def long_unhashable_lines():
+    """An unhashable key is refused EVERY time it is offered, whatever its size (its printed form from a few to thousands of characters:
+    error messages quote the key), by every operation that takes a key, and the map is unchanged; hashable keys of the same sizes work."""
+    out = ["fn wide(n) { var v = []; var i = 0; while i < n { v.push(i); i = i + 1; } return v; }",
+           "fn longs(n) { var t = \"\"; var i = 0; while i < n { t = t + \"x\"; i = i + 1; } return t; }",
+           "fn attempt(f) { try { f(); print(\"accepted\"); } catch e { print(type(e)); } }",
+           "fn lit(k) { return {k: 1}; }",
+           "var um = {\"k\": 1};"]
+    exp = []
+    for n in (0, 1, 5, 20, 70, 300, 2000):
+        out.append("{ var bad = (1, wide(%d)); var bad2 = ((wide(%d), 2), longs(%d)); var good = (1, longs(%d), (2, longs(%d)));" % (n, n, n, n, n))
+        for rep in range(3):
+            for key in ("bad", "bad2"):
+                out.append("  attempt(|| um.insert(%s, 1)); attempt(|| um.get(%s)); attempt(|| um.has_key(%s)); attempt(|| um.remove(%s)); attempt(|| lit(%s));" % (key, key, key, key, key))
+                exp += ["<class ValueError>"] * 5
+            out.append("  um.insert(good, %d); print(um.get(good)); print(um.has_key((1, longs(%d), (2, longs(%d))))); print(um.len()); print(um.remove(good)); print(um.len());" % (rep, n, n))
+            exp += [str(rep), "true", "2", str(rep), "1"]
+        out.append("}")
+    return "\n".join(out) + "\n", exp
+
+
 DIRECTED12 = [
     # the entry holds the value inserted LAST, also when it is == to the one it replaces: two distinct vectors / maps / tuples holding one
     ("overwrite-with-an-equal-but-distinct-value",
@@ -970,6 +1011,8 @@ DIRECTED12 = [
      "m.insert(\"zero\", 0); m.insert(\"zero\", -0); print(m.get(\"zero\")); m.insert(\"zero\", 0); print(m.get(\"zero\")); print(m.len());\n",
      ["[1]", "[1]", "[1]", "1", "(1, [9])", "[1]", "true", "[2, 3]", "-0", "0", "4"]),
     ("tuple-keys-of-any-depth",) + deep_key_lines(),
+    ("enumerations-belong-to-the-caller",) + fresh_enumeration_lines(),
+    ("unhashable-keys-of-any-size-refused-every-time",) + long_unhashable_lines(),
 ]
 
 
